@@ -183,3 +183,50 @@ def merged_parent_docs():
 
 
 FAMILIES["merged-parents"] = merged_parent_docs
+
+
+# ---------------------------------------------------------------------------------------------
+# ONE nullable variable used at TWO positions of the same non-null type, exactly one of which has a
+# default value: the usage at the position without default must be refused, whatever the order
+
+
+def two_usage_docs():
+    VIAP = "VariablesInAllowedPositionChecker"
+
+    def doc(sels, vtype, vdefault=None):
+        return {"doc": mkdoc(mkop(sels, vars_=[["v", vtype, vdefault]])), "vars": {"v": [OMIT]}}
+
+    shapes = {
+        # two arguments of one field: a has a default, b has none
+        "arguments:default-first": lambda: [F("pair", args={"a": "$v", "b": "$v"})],
+        "arguments:default-last": lambda: [F("pair", args={"b": "$v", "a": "$v"})],
+        # two selections (one argument each)
+        "selections:default-first": lambda: [F("scalar_d1", alias="x", args={"x": "$v"}), F("scalar_a1", alias="y", args={"x": "$v"})],
+        "selections:default-last": lambda: [F("scalar_a1", alias="y", args={"x": "$v"}), F("scalar_d1", alias="x", args={"x": "$v"})],
+        # the same field twice (merged), through a fragment
+        "fragment:default-first": lambda: [F("scalar_d1", args={"x": "$v"}), SP("Use")],
+        "fragment:default-last": lambda: [SP("Use"), F("scalar_d1", args={"x": "$v"})],
+        # two fields of one input object
+        "input-fields:default-first": lambda: [F("pairobj", args={"x": "{a: $v, b: $v}"})],
+        "input-fields:default-last": lambda: [F("pairobj", args={"x": "{b: $v, a: $v}"})],
+        # two input objects in two selections
+        "input-objects:default-first": lambda: [F("obj_d1", alias="x", args={"x": "{f: $v}"}), F("obj_a1", alias="y", args={"x": "{f: $v}"})],
+        "input-objects:default-last": lambda: [F("obj_a1", alias="y", args={"x": "{f: $v}"}), F("obj_d1", alias="x", args={"x": "{f: $v}"})],
+    }
+    for tag, mk in shapes.items():
+        frags = [["Use", "Query", [], [F("scalar_a1", args={"x": "$v"})]]] if tag.startswith("fragment") else []
+        for vtag, vtype, vdef, label in (
+            ("nullable", "Int", None, VIAP),            # refused at the position without default
+            ("nullable-null-default", "Int", "null", VIAP),
+            ("non-null", "Int!", None, None),           # fine at both
+            ("nullable-with-default", "Int", "3", None),  # a non-null variable default excuses both
+        ):
+            c = doc(mk(), vtype, vdef)
+            c["doc"]["frags"] = [list(f) for f in frags]
+            yield "W", "two-usages:%s:%s" % (tag, vtag), label, c
+    # only the defaulted position uses the variable: valid
+    yield "W", "two-usages:only-defaulted-position:nullable", None, doc([F("pair", args={"a": "$v", "b": "1"})], "Int")
+    yield "W", "two-usages:only-defaulted-position:input-field", None, doc([F("pairobj", args={"x": "{a: $v, b: 1}"})], "Int")
+
+
+FAMILIES["two-usages"] = two_usage_docs
